@@ -164,6 +164,8 @@ class Interp:
             return self.assume[key]
         v = self.choose(2, tag) == 0
         self.assume[key] = v
+        if "chunk-len" in repr(key):
+            self.emit("decision", key=key, value=v)
         return v
 
     # ------------------------------------------------------------------ events
